@@ -1071,4 +1071,84 @@ fill = partial(_fill_at_blanks, width=line_length)""")]),
         for k in ("params", "returns"):
             if ir[k]:
                 ir[k] = OrderedDict(map(read_again, ir[k].items()))""")]),
+    # ------------------------------------------------------------------ TYPE-LADDER (C17)
+    dict(id="ladder-isdecimal-again", kind=B, props=["C17"], expect="TYPE-LADDER", edits=[("defaults_utils.py",
+         """            try:
+                default = int(default)  # signed integers too: `"-5".isdecimal()` is False
+            except ValueError:
+                default = float(default)""", """            default = int(default) if default.isdecimal() else float(default)""")]),
+    dict(id="ladder-whole-floats-to-int", kind=B, props=["C17"], expect="TYPE-LADDER", edits=[("defaults_utils.py",
+         """            except ValueError:
+                default = float(default)""", """            except ValueError:
+                default = float(default)
+                if default.is_integer():
+                    default = int(default)""")]),
+    dict(id="ladder-literal-eval-unguarded", kind=B, props=["C17"], expect="TYPE-LADDER", edits=[("defaults_utils.py",
+         """        try:
+            lit = literal_eval(default)
+        except (ValueError, SyntaxError):
+            if typ != "str":
+                raise
+            lit = default  # an unquoted string is not a Python literal: it is the value as it stands""", """        lit = literal_eval(default)""")]),
+    dict(id="ladder-bool-words-through-float", kind=B, props=["C17"], expect="TYPE-LADDER", edits=[("defaults_utils.py",
+         """    elif default in frozenset(("True", "False")):
+        default = literal_eval(default)
+    else:""", """    elif default in frozenset(("true", "false")):
+        default = literal_eval(default)
+    else:""")]),
+    dict(id="ladder-strip-sign-then-isdecimal", kind=N, props=["C17"], expect="silent", edits=[("defaults_utils.py",
+         """            try:
+                default = int(default)  # signed integers too: `"-5".isdecimal()` is False
+            except ValueError:
+                default = float(default)""", """            default = int(default) if default.lstrip("-").isdecimal() else float(default)""")]),
+    dict(id="ladder-helper-function", kind=N, props=["C17"], expect="silent", edits=[("defaults_utils.py",
+         """def extract_default(
+    line,""", """def _to_number(text):
+    \"\"\"int when the text is an integer literal, float otherwise; ValueError when it is no number\"\"\"
+    try:
+        return int(text)
+    except ValueError:
+        return float(text)
+
+
+def extract_default(
+    line,"""), ("defaults_utils.py", """            try:
+                default = int(default)  # signed integers too: `"-5".isdecimal()` is False
+            except ValueError:
+                default = float(default)""", """            default = _to_number(default)""")]),
+    dict(id="ladder-code-default-raises-again", kind=B, props=["C17"], expect="TYPE-LADDER", edits=[("defaults_utils.py",
+         """        except (ValueError, SyntaxError):
+            pass  # not a Python literal - an unquoted string, an expression: it is the value as it stands""", """        except (ValueError, SyntaxError):
+            if typ != "str":
+                raise""")]),
+    # ------------------------------------------------------------------ EMPTY-HOLE (C08, C17)
+    dict(id="emptyhole-fallback-dropped", kind=B, props=["C08", "C17"], expect="EMPTY-HOLE", edits=[("defaults_utils.py",
+         """                default=(quote(_param["default"]) or '""')  # `quote` leaves the empty string bare""",
+         """                default=quote(_param["default"])""")]),
+    dict(id="emptyhole-conditional-form", kind=N, props=["C08", "C17"], expect="silent", edits=[("defaults_utils.py",
+         """                default=(quote(_param["default"]) or '""')  # `quote` leaves the empty string bare""",
+         """                default=('""' if _param["default"] == "" else quote(_param["default"]))""")]),
+    dict(id="emptyhole-quote-handles-empty", kind=N, props=["C08", "C17"], expect="silent", edits=[("defaults_utils.py",
+         """                default=(quote(_param["default"]) or '""')  # `quote` leaves the empty string bare""",
+         """                default=quote(_param["default"])"""), ("pure_utils.py",
+         """    if s is None or len(s) == 0 or s[0] == s[-1] and s[0] in frozenset(("'", '"')):
+        return s""", """    if s is None or len(s) > 0 and s[0] == s[-1] and s[0] in frozenset(("'", '"')):
+        return s""")]),
+    # ------------------------------------------------------------------ INVENTED-DEFAULT (C01, C07)
+    dict(id="invented-default-rest-sweep-requires", kind=B, props=["C01", "C07"], expect="INVENTED-DEFAULT", edits=[("docstring_parsers.py",
+         """                        partial(
+                            interpolate_defaults, emit_default_doc=emit_default_doc
+                        ),
+                        ir[k].items(),""", """                        partial(
+                            interpolate_defaults, emit_default_doc=emit_default_doc, require_default=bool(ir["params"])
+                        ),
+                        ir[k].items(),""")]),
+    dict(id="invented-default-rest-token-requires", kind=B, props=["C01", "C07"], expect="INVENTED-DEFAULT", edits=[("docstring_parsers.py",
+         """            interpolate_defaults(param, emit_default_doc=emit_default_doc),
+            infer_type=infer_type,""", """            interpolate_defaults(param, emit_default_doc=emit_default_doc, require_default=infer_type),
+            infer_type=infer_type,""")]),
+    dict(id="invented-default-explicit-false", kind=N, props=["C01", "C07"], expect="silent", edits=[("docstring_parsers.py",
+         """            interpolate_defaults(param, emit_default_doc=emit_default_doc),
+            infer_type=infer_type,""", """            interpolate_defaults(param, emit_default_doc=emit_default_doc, require_default=False),
+            infer_type=infer_type,""")]),
 ]
